@@ -465,6 +465,18 @@ def tail_correspondence(run, recs, cap):
             run.violation("normalize-mirror: `prog %s` with %r: the mirror of normalize_options gives %r, the implementation %r" % (r["usage"], r["argv"], want, got),
                           dict(replay_of(r), model=want, implementation=got), no_input=True)
             break
+    # the mirror of parse_help + parse_usage (HelpDoc.v, UsageDoc.v) must read the usage patterns the code read (hook)
+    ulines = [sx(["usagedoc", hx(D.script_text(sel[i]["lines"], sel[i]["with_opts"]))]) for i in range(len(sel)) if "usages_read" in touts[i]]
+    uidx = [i for i in range(len(sel)) if "usages_read" in touts[i]]
+    for i, uo in zip(uidx, C.run_oracle(ulines)):
+        e = parse_sx(uo)
+        want = None if isinstance(e, str) else [unhx(a).decode("utf-8", "replace") for a in e[1:]]
+        got = touts[i]["usages_read"]
+        if want != got:
+            r = sel[i]
+            run.violation("usage-section mirror: `%s`: UsageDoc.v reads %r, the implementation read %r" % (r["usage"], want, got),
+                          dict(replay_of(r), model=want, implementation=got), no_input=True)
+            break
     checked = 0
     dist = {}
     for i, mo in zip(idx, mouts):
